@@ -123,6 +123,7 @@ func (s *Service) HandshakeAllKept(gs []*Group, connected bool) {
 	skipMap := make(map[string]struct{})
 	wg := sync.WaitGroup{}
 	for _, g := range gs {
+		g := g // the goroutines below outlive the iteration
 		if connected {
 			for _, v := range g.connectedPeers.BinPeers(0) {
 				if _, ok := skipMap[v.ByteString()]; ok {
